@@ -116,7 +116,12 @@ func runC06(w *W) {
 	judge := func(g string, in []byte) { w.c06Judge(st, g, in) }
 	th := w.thorough()
 	// inputs shared with C01
-	w.genTokens(4, judge)
+	if th {
+		w.genTokens(5, judge)
+		w.genNumSpellings(6, judge)
+	} else {
+		w.genTokens(4, judge)
+	}
 	w.genNumLong(judge)
 	w.genAtoms(judge)
 	off := []int{0, 1, 30, 31, 32, 33, 61, 62, 63}
@@ -172,14 +177,14 @@ func runC06(w *W) {
 	// valid documents, NDJSON, mutants, random
 	scale := 1
 	if th {
-		scale = 10
+		scale = 40
 	}
 	w.eachValidDoc(scale, judge)
 	w.eachNDInput(scale, judge)
 	docs := w.seedDocs(700<<10, 100, 20)
 	per := 30
 	if th {
-		per = 200
+		per = 600
 	}
 	w.genMutants(docs, func(size int) int {
 		if size > 64<<10 {
@@ -189,7 +194,7 @@ func runC06(w *W) {
 	}, judge)
 	nr := 200000
 	if th {
-		nr = 3000000
+		nr = 20000000
 	}
 	w.genRandom(nr, 300, judge)
 }
